@@ -120,6 +120,7 @@ func (r *run) interceptProduce(req *fakekafka.Request) *fakekafka.Reply {
 	case "ackCut":
 		f.UseCut, f.CutFrame = true, cut
 	case "ackNever":
+	case "okStall": // acknowledged; afterwards this connection's receive window stays closed until gate "unstall:<tp>" opens
 	case "rejTemp":
 		f.Err = 6
 	case "rejTemp2":
@@ -174,5 +175,19 @@ func (r *run) interceptProduce(req *fakekafka.Request) *fakekafka.Reply {
 		return trace.Event{"ev": "produce", "tp": []interface{}{topic, part}, "msgs": ids, "applied": applied,
 			"ok": ok, "retriable": false, "kind": kind, "acks": int(acks), "v": int(req.Version), "cut": cut, "nparts": nparts}
 	})
+	if kind == "okStall" {
+		conn := req.Conn
+		prev := rep.OnSend
+		rep.OnSend = func() {
+			if prev != nil {
+				prev()
+			}
+			conn.StallIncoming(true)
+			go func() {
+				r.gates.pass("unstall:" + key)
+				conn.StallIncoming(false)
+			}()
+		}
+	}
 	return &rep
 }
